@@ -193,3 +193,65 @@ def escape_check(R, oid, entry, allowed, what_entry, require_resolved=True, only
                f'{short(exc)} can escape {what_entry} ({len(ws)} raising site(s); e.g. {ws[0][-220:]})',
                f'{F.path}:{line}', witness=sorted(ws)[:8])
     return S
+
+
+def optional_int_attr(P, cx, e):
+    """e is `<v>.<attr>` where <v> is a (closure) parameter annotated with a class whose <attr> is an optional integer:
+    a dataclass field annotated `int | None`, or a TLV UintField. Returns a description or None."""
+    from ..models import models_of
+    if not (isinstance(e, ast.Attribute) and isinstance(e.value, ast.Name)):
+        return None
+    c = cx
+    ann = None
+    while c is not None and ann is None:
+        for a in c.f.node.args.args + c.f.node.args.kwonlyargs:
+            if a.arg == e.value.id and a.annotation is not None:
+                ann = (c.f.mod, a.annotation)
+        if ann is None:
+            for s in ast.walk(c.f.node):
+                if isinstance(s, ast.AnnAssign) and isinstance(s.target, ast.Name) and s.target.id == e.value.id:
+                    ann = (c.f.mod, s.annotation)
+        c = c.parent
+    if ann is None:
+        return None
+    mc = P.ann_class(ann[0], ann[1])
+    if not mc or mc not in P.classes:
+        return None
+    M = models_of(P)
+    if M.is_model(mc):
+        f = M.field(mc, e.attr)
+        if f is not None and f.kind == 'UintField' and f.nullable:
+            return f'UintField {mc[1]}.{e.attr}'
+        return None
+    r = P.find_member(mc[0], mc[1], e.attr)
+    if r and r[0] == 'classann':
+        t = ast.unparse(r[4])
+        if 'int' in t.replace('Interest', '') and P.ann_nullable(r[4]):
+            return f'{mc[1]}.{e.attr}: {t}'
+    return None
+
+
+def int_truthiness_uses(P, cx):
+    """places where an optional integer is tested by truthiness (0 would be taken for "absent"):
+    bare `if x.f`, `not x.f`, `x.f or default`, `x.f and ...`, `v if x.f else w`"""
+    out = []
+    for n in cx.cfg.nodes:
+        if n.kind == 'test':
+            d = optional_int_attr(P, cx, n.ast)
+            if d:
+                out.append((n.ast, d))
+        for x in n.walk():
+            if isinstance(x, ast.BoolOp):
+                for v in x.values[:-1] if isinstance(x.op, ast.Or) else x.values:
+                    d = optional_int_attr(P, cx, v)
+                    if d and n.kind != 'test':
+                        out.append((x, d))
+            if isinstance(x, ast.IfExp):
+                d = optional_int_attr(P, cx, x.test)
+                if d:
+                    out.append((x, d))
+            if isinstance(x, ast.UnaryOp) and isinstance(x.op, ast.Not):
+                d = optional_int_attr(P, cx, x.operand)
+                if d and n.kind != 'test':
+                    out.append((x, d))
+    return out
